@@ -129,7 +129,7 @@ def run_tlc(module: str, cfg_text: str, *, name: str, workers: int = 1, env: dic
     wd.mkdir(parents=True, exist_ok=True)
     cfg = wd / f"{module}.cfg"
     cfg.write_text(cfg_text)
-    cmd = ["java", "-XX:+UseParallelGC", "-XX:ParallelGCThreads=2", "-XX:TieredStopAtLevel=4", f"-Xmx{heap}", "-cp", JAR, "tlc2.TLC",
+    cmd = ["java", "-XX:+UseParallelGC", "-XX:ParallelGCThreads=2", "-XX:TieredStopAtLevel=4", "-Xss64m", f"-Xmx{heap}", "-cp", JAR, "tlc2.TLC",
            "-workers", str(workers), "-metadir", str(wd / "md"), "-noGenerateSpecTE",
            "-config", str(cfg)]
     if cont:
@@ -160,7 +160,7 @@ def run_tlc(module: str, cfg_text: str, *, name: str, workers: int = 1, env: dic
         raise MachineryError(f"TLC timeout after {timeout}s: {' '.join(cmd)}") from ex
     out = p.stdout + "\n" + p.stderr
     (wd / "tlc.out").write_text(out)
-    res = TlcResult(ok=False, raw=out, wall_s=time.time() - t0, cmd="tlc " + " ".join(cmd[7:]))
+    res = TlcResult(ok=False, raw=out, wall_s=time.time() - t0, cmd="tlc " + " ".join(cmd[8:]))
     m = re.findall(r"(\d+) states generated, (\d+) distinct states found", out)
     if m:
         res.generated, res.distinct = int(m[-1][0]), int(m[-1][1])
